@@ -110,9 +110,27 @@ Proof.
 Qed.
 Print Assumptions matrices_exact.
 
-(* from_matrices(to_matrices(m)) has the same transition, reward, action and initial-state
-   arrays, lists and discount rate (the absorbing vector is compared by the harness only) *)
-Theorem from_to_matrices_partial : forall m sl al,
+(* absorbing_state_vec: explicit flag, or the state has an available action, each available
+   action returns to it with probability 1, and no non-zero-probability transition out of it
+   carries a non-zero reward (dead ends are not absorbing) *)
+Theorem absorbing_vec_exact : forall m sl al i,
+  NoDup sl -> NoDup al -> (forall s a, NoDup (map fst (fnext m s a))) -> (i < length sl)%nat ->
+  let s := nth i sl O in
+  (nth i (m_abs (to_matrices m sl al)) false = true <->
+   fabsorbing m s = true \/
+   ((forall j, (j < length al)%nat -> mem (nth j al O) (factions m s) = true ->
+               prob (fnext m s (nth j al O)) s == 1) /\
+    (exists j, (j < length al)%nat /\ mem (nth j al O) (factions m s) = true) /\
+    (forall j k, (j < length al)%nat -> (k < length sl)%nat ->
+                 mem (nth j al O) (factions m s) = true ->
+                 Qnz (prob (fnext m s (nth j al O)) (nth k sl O)) = true ->
+                 freward m s (nth j al O) (nth k sl O) == 0))).
+Proof. exact TabularTheory.absorbing_vec_exact. Qed.
+Print Assumptions absorbing_vec_exact.
+
+(* from_matrices(to_matrices(m)) has the same transition, reward, action, initial-state and
+   absorbing arrays, lists and discount rate *)
+Theorem from_to_matrices : forall m sl al,
   NoDup sl -> NoDup al ->
   (forall s a, NoDup (map fst (fnext m s a))) ->
   (forall s a e, In e (fnext m s a) -> 0 <= snd e) ->
@@ -121,7 +139,8 @@ Theorem from_to_matrices_partial : forall m sl al,
   let M' := to_matrices (from_matrices M) sl al in
   (forall i j k, (i < length sl)%nat -> (j < length al)%nat -> (k < length sl)%nat ->
      get3 (m_tf M') i j k == get3 (m_tf M) i j k /\ get3 (m_rf M') i j k == get3 (m_rf M) i j k /\
-     get2 (m_am M') i j == get2 (m_am M) i j /\ nth k (m_s0 M') 0 == nth k (m_s0 M) 0) /\
+     get2 (m_am M') i j == get2 (m_am M) i j /\ nth k (m_s0 M') 0 == nth k (m_s0 M) 0 /\
+     nth i (m_abs M') false = nth i (m_abs M) false) /\
   m_sl M' = m_sl M /\ m_al M' = m_al M /\ m_gamma M' = m_gamma M /\
   dims3 (m_tf M') (length sl) (length al) (length sl) /\ dims3 (m_tf M) (length sl) (length al) (length sl) /\
   dims3 (m_rf M') (length sl) (length al) (length sl) /\ dims3 (m_rf M) (length sl) (length al) (length sl) /\
@@ -133,10 +152,11 @@ Proof.
     split; [exact (round_trip_tf m sl al Hsl Hal Hkeys Hnn i j k Hi Hj Hk) |].
     split; [exact (round_trip_rf m sl al Hsl Hal Hkeys Hnn i j k Hi Hj Hk) |].
     split; [exact (round_trip_am m sl al Hsl Hal i j Hi Hj) |].
-    exact (round_trip_s0 m sl al Hsl Hin k Hk).
+    split; [exact (round_trip_s0 m sl al Hsl Hin k Hk) |].
+    exact (round_trip_abs m sl al Hsl Hal Hkeys Hnn i Hi).
   - exact (round_trip_rest m sl al).
 Qed.
-Print Assumptions from_to_matrices_partial.
+Print Assumptions from_to_matrices.
 
 (* wrapping the five functions in the quick constructor gives the same MDP, hence the same
    arrays, lists and (C01's models being functions of the arrays only) planning results *)
